@@ -22,6 +22,7 @@ def valJson : Val → Json
   | .int i => ofInt i
   | .bool b => Json.bool b
   | .elem u => obj [("elem", ofChars u)]
+  | .method o n => obj [("method", ofChars n), ("owner", ofChars o)]
 
 def valD (j : Json) (k : String) : Except String Val := parseVal (fldD j k Json.null)
 def strsD (j : Json) (k : String) : Except String (List Str) := do
@@ -37,6 +38,7 @@ def parseRaw (j : Json) : Except String RawView := do
   if isNull j then return .unset
   match (← sfld j "t") with
   | "unset" => return .unset
+  | "iterator" => return .iterator
   | "none" => return .none
   | "pairs" => return .pairs (← (← arr (fldD j "keys" (Json.arr #[]))).mapM parseVal)
   | "notIterable" => return .notIterable
@@ -147,7 +149,18 @@ def run (j : Json) : Except String Json := do
   let e ← parseView (← fld j "view")
   let pre ← (← arr (fldD j "pre_errors" (Json.arr #[]))).mapM chars
   let container ← boolD (← fld j "view") "container" false
-  let res := Flatland.C15.run v e pre
+  let ovs ← (← arr (fldD (← fld j "v") "messages" (Json.arr #[]))).mapM (fun p => do
+    match (← arr p) with
+    | [k, m] =>
+      let msg : Msg ← (match m with
+        | .str t => pure (Msg.plain t.toList)
+        | _ => do
+          match (← arr m) with
+          | [a, b, c] => pure (Msg.plural (← chars a) (← chars b) (← chars c))
+          | _ => throw "bad message override")
+      return ((← str k), msg)
+    | _ => throw "bad message override")
+  let res := Flatland.C15.runOverridden ovs v e pre
   let spec := Spec.documented v e
   let agrees : Bool := match res, spec with
     | .ok o, some b => o.verdict == b
